@@ -18,7 +18,7 @@ CLAIMED = {
  'C02': ('other', 'symbolic execution of the real incremental::run over a symbolic file system (two invocations): run #2 = Skipped implies a complete record from run #1 and an unchanged declared tree by an independent reference semantics (listing, mtime-or-hash, command text).', '4 C02'),
  'C03': ('other', 'same exploration: record stored and nothing changed => Skipped; a completed run stores its record; found F3 (fixed).', '4 C03'),
  'C05': ('other', 'same exploration plus a three-invocation chain with zinoma dying at every file-system mutation point / while the script runs: no skip unless the record of the interrupted run was complete; failed or cancelled scripts never skip.', '4 C05'),
- 'C06': ('model_checking', 'LOCAL bounded model checking of each actor in an open environment (watch mode): no acknowledgement of a run invalidated in flight, no start while the last word of a dependency is out of date, late requesters answered. (The whole-system convergence clause and the absorbed-change clause are outside this check; see DESIGN F6.)', '4 C06'),
+ 'C06': ('model_checking', 'SYS bounded model checking of the composed watch-mode system (n=2, K=20, at most E=1 file-change notification per run in the quick tier; E=2 and n=3 in the thorough tier): at every quiescent state reached without signal every requested build/service target has been (re)started after the last change to its inputs and after the last completed run of every build it depends on (directly or through aggregates) -- also when scripts may fail (a failed execution that started before the last change must be repeated). LOCAL bounded model checking of each actor in an open environment (watch mode): no acknowledgement of a run invalidated in flight, no start while the last word of a dependency is out of date, late requesters answered. The absorbed-change clause is decided over incremental::run on the symbolic file system (known finding F6).', '4 C06'),
  'C09': ('other', 'symbolic execution of the real resolver over project families with solver-chosen references and requests, compared path by path with a reference closure/cycle/kind semantics; the same through the whole of main() (MAINRUN: command line -> ids -> resolution -> what the engine is started with); native confirmation through the real binary.', '4 C09'),
  'C13': ('other', 'resolver exploration: the input of every consumer = own resources + outputs of each X.output producer bound to the producer directory; native two-run confirmation.', '4 C13'),
  'C18': ('other', 'incremental::run writes nothing but its own record (frame condition over every explored path); entry independence: main() entered in the importing project and in the imported project resolves the same target to identical values (directory, resource paths, command directories), natively: built from the importer, skipped from its own directory, also when that directory is spelt with `..`; record files of distinct targets of a project are distinct.', '4 C18'),
